@@ -151,7 +151,10 @@ theorem events_eq_expected {p : Path} (hg : p.good = true) : p.events = p.expect
     simp [Path.good, Path.valid, Path.shutdown, Path.defect] at hg
     simp [Path.events, Path.expected, Path.request, Path.clientStatus,
       writeResponse_wrote (skip_false_of_not_connect w hg.1 hg.2)]
-  | upgradeNonWritable m => rfl
+  | upgradeNonWritable m w =>
+    simp [Path.good, Path.valid, Path.shutdown, Path.defect] at hg
+    simp [Path.events, Path.expected, Path.request, Path.clientStatus, writeErrorResponse,
+      writeResponse_wrote (skip_false_of_not_connect w hg (by decide : (502 : Nat) ≠ 101))]
   | upgrade m e =>
     simp [Path.events, Path.expected, Path.request, Path.clientStatus, tunnel_upgrade]
   | connectRefused st w =>
@@ -390,7 +393,7 @@ theorem rem_events (p : Path) : Rem p.events := by
   | transportConnectRejected m st w => exact rem_read_cons m st w
   | responseModifierError m st w => exact rem_read_cons m st w
   | response m st w => exact rem_read_cons m st w
-  | upgradeNonWritable m => exact Or.inr (Or.inl ⟨m, 101, rfl⟩)
+  | upgradeNonWritable m w => exact rem_read_cons m 502 w
   | upgrade m e =>
     simp only [Path.events, tunnel_upgrade]
     exact Or.inr (Or.inl ⟨m, 101, rfl⟩)
